@@ -171,9 +171,58 @@ def _setup(api, case):
     return ctx, st
 
 
+def key_driver(case, api):
+    """ty = "key": reads and writes of one array by property key -> evs[k].obs = {out, store, pr, probes}
+    (pr = the receiver's own named properties in creation order, probes = script reads of the given names as strings)"""
+    ctx, st = _setup(api, case)
+    g = ctx._globals
+    rcv = st.known[case["r"] - 1]
+    probes = ctx._to_js([wire_to_py(p, True) for p in case["probes"]])
+    obs = []
+    for ev in case["evs"]:
+        g["__rcv"] = rcv
+        g["__a0"] = st.val(ev["k"])
+        g["__a1"] = st.val(ev["v"])
+        got = []
+        g["__done"] = lambda *a: (got.append(a), None)[1]
+        expr = "__rcv[__a0]" if ev["op"] == "get" else "(__rcv[__a0] = __a1)"
+        src = ("var __r, __t = 0, __e; try { __r = " + expr + "; } catch (e) { __t = 1; __e = e; } "
+               "if (__t) { __done(1, __e, __cls(__e)); } else { __done(0, __r, ''); }")
+        out = api.eval_outcome(ctx, src, wall=20.0, cap=400_000)
+        if out["o"] == "value":
+            if len(got) != 1:
+                out = {"o": "host", "cls": "NoOutcome", "v": {"k": "undef"}}
+            elif got[0][0] == 0:
+                out = {"o": "value", "v": st.enc(got[0][1]), "cls": ""}
+            else:
+                cls = str(got[0][2])
+                out = {"o": "throw", "v": st.enc(got[0][1]) if cls == "value" else {"k": "undef"}, "cls": cls}
+        elif out["o"] == "host":
+            out = {"o": "host", "cls": out.get("type", "?"), "v": {"k": "undef"}, "where": out.get("where", ""), "msg": out.get("msg", "")}
+        else:
+            out = {"o": out["o"], "cls": out.get("name", ""), "v": {"k": "undef"}, "msg": out.get("msg", "") or out.get("why", "")}
+        box = []
+        g["__P"] = probes
+        g["__take"] = lambda arr, _b=box: (_b.append(arr), None)[1]
+        so = api.eval_outcome(ctx, "var __o = [], __i; for (__i = 0; __i < __P.length; __i = __i + 1) { __o.push(__rcv[__P[__i]]); } __take(__o);",
+                              wall=20.0, cap=400_000)
+        if so["o"] != "value" or len(box) != 1 or not isinstance(box[0], st.V.JSArray):
+            pv = [{"k": "hostval", "t": "probe reads failed: " + so["o"] + ":" + str(so.get("type", ""))}]
+        else:
+            pv = [st.enc(e) for e in box[0]._elements]
+        pr = [{"n": wire.to_wire(str(n))["u"], "v": st.enc(v)} for n, v in rcv._properties.items()]
+        pr += [{"n": wire.to_wire(str(n))["u"], "v": {"k": "hostval", "t": "accessor"}} for n in list(rcv._getters) + list(rcv._setters)]
+        obs.append({"out": out, "store": st.snapshot(), "pr": pr, "probes": pv})
+        if out["o"] not in ("value", "throw", "host") or so["o"] != "value":
+            _drop("arr")
+    return {"id": case["id"], "obs": obs}
+
+
 def call_driver(case, api):
     if case["ty"] == "ta":
         return ta_driver(case, api)
+    if case["ty"] == "key":
+        return key_driver(case, api)
     ctx, st = _setup(api, case)
     log = []
     if case["ty"] == "call":
